@@ -117,6 +117,7 @@ class Search
     TimePoint _start_time;
 
     std::vector<Move> _root_moves;
+    uint64_t _root_key_salt = 0;  // non-zero iff the root is restricted by searchmoves
 
     tt::TTable& _ttable;
     StackInfo _stack_info;
